@@ -245,3 +245,46 @@ Proof.
       * split; auto. intros x. rewrite M3, q_sort_In. split; [tauto|].
         intros H. split; [exact H|]. apply Ns. exact H.
 Qed.
+
+(* ---------------------------------------------------------------- sort.Sort is determined by its contract *)
+Section SortUnique.
+  Variables mids rids : list N.
+  Notation ge := (kge mids rids).
+
+  Lemma q_insert_perm x l : Permutation (x :: l) (q_insert mids rids x l).
+  Proof.
+    induction l as [|y l IH]; simpl; auto.
+    destruct (queue_less mids rids y x); auto.
+    eapply Permutation_trans; [apply perm_swap|]. apply perm_skip. exact IH.
+  Qed.
+
+  Lemma q_sort_perm l : Permutation l (q_sort mids rids l).
+  Proof.
+    induction l as [|x l IH]; simpl; auto.
+    eapply Permutation_trans; [apply perm_skip; exact IH|apply q_insert_perm].
+  Qed.
+
+  Lemma kge_antisym a b : ge a b -> ge b a -> a = b.
+  Proof. intros [H1| ->] [H2|H2]; auto. exfalso. eapply kgt_asym; eauto. Qed.
+
+  Lemma sorted_perm_eq : forall l1 l2, StronglySorted ge l1 -> StronglySorted ge l2 -> Permutation l1 l2 -> l1 = l2.
+  Proof.
+    induction l1 as [|a l1 IH]; intros l2 S1 S2 P.
+    - apply Permutation_nil in P. auto.
+    - destruct l2 as [|b l2]; [apply Permutation_sym, Permutation_nil in P; discriminate|].
+      pose proof (StronglySorted_inv S1) as [S1' F1]. pose proof (StronglySorted_inv S2) as [S2' F2].
+      rewrite Forall_forall in F1, F2.
+      assert (a = b).
+      { assert (Ha : In a (b :: l2)) by (eapply Permutation_in; [exact P|left; auto]).
+        assert (Hb : In b (a :: l1)) by (eapply Permutation_in; [apply Permutation_sym; exact P|left; auto]).
+        destruct Ha as [->|Ha]; auto. destruct Hb as [->|Hb]; auto. apply kge_antisym; auto. }
+      subst b. f_equal. apply IH; auto. eapply Permutation_cons_inv; eauto.
+  Qed.
+
+  (* whatever algorithm sort.Sort uses: a descending rearrangement of the queue IS q_sort's output *)
+  Theorem sort_unique l l' : Permutation l l' -> StronglySorted ge l' -> l' = q_sort mids rids l.
+  Proof.
+    intros P S. apply sorted_perm_eq; auto; [apply q_sort_sorted|].
+    eapply Permutation_trans; [apply Permutation_sym; exact P|apply q_sort_perm].
+  Qed.
+End SortUnique.
